@@ -103,7 +103,7 @@ def parse_timer_model(text):
 def timer_oracle(ops, P, T, events):
     """independent check of the statement on the implementation trace:
     a client silent from some PING on must get ERROR no later than T (+0.2 s slack) after the
-    first PING it failed to answer; a client that answered every PING within min(P,T) is never
+    first PING it failed to answer; a client that answered every PING within T is never
     sent ERROR."""
     t = 0
     pong_times = []
@@ -127,7 +127,9 @@ def timer_oracle(ops, P, T, events):
     if errs:
         e = errs[0]
         # was every ping before e answered in time?
-        ok_all = all(any(p <= q < min(p + T * 1000, p + P * 1000) for q in pong_times) for p in pings if p < e)
+        # (answered = some PONG arrives within pong_timeout of the PING; with pong_timeout > ping_timeout the
+        # answer may come after the next PING has been sent - that PING starts no second timer)
+        ok_all = all(any(p <= q < p + T * 1000 for q in pong_times) for p in pings if p < e)
         if ok_all and pings:
             return "live-client-dropped"
     return None
@@ -331,6 +333,32 @@ def gen_conc_scenarios(seed, n, kinds=None):
             setup += ["send 2 LIST"] * r.choice([300, 360]) + ["sleep 400"]
             burst[1] = [L(1, "KILL vic :bye")]
             burst[3] = [L(3, "NICK vic"), L(3, "NICK vic")] + ([L(3, "JOIN #k")] if r.random() < 0.5 else [])
+        elif kind == "gated":
+            # lock-queue schedules: while the harness holds the state write lock (hook verif_hold_state) the
+            # connections send one command each, in a chosen order; their handlers queue on the (FIFO) lock in
+            # that order and run when the harness lets go.  A handler that is one lock section behaves as in
+            # the sequential order; a handler that checks under one acquisition and updates under another lets
+            # the next one slip in between - deterministically.
+            k = 3
+            for c in range(1, k + 1):
+                setup += reg(c, "n%d" % c)
+            setup += [L(1, "JOIN #c"), L(2, "JOIN #c")] + ([L(3, "JOIN #c")] if r.random() < 0.5 else [])
+            setup += r.choice([[], [L(1, "MODE #c +o n2")], [L(1, "MODE #c +v n2")], [L(1, "MODE #c +l 3")],
+                               [L(1, "MODE #c +i"), L(1, "INVITE n3 #c")], [L(1, "MODE #c +k key")]])
+            menus = {
+                1: ["MODE #c +t", "MODE #c +m", "MODE #c +n", "KICK #c n2", "KICK #c n3", "MODE #c -o n2", "MODE #c +b n3!*@*",
+                    "MODE #c +i", "MODE #c +l 2", "MODE #c +k sesame", "PART #c", "TOPIC #c :by founder", "MODE #c +s",
+                    "NICK own1", "MODE #c -v n2", "MODE #c +o n2", "INVITE n3 #c"],
+                2: ["TOPIC #c :t2", "PRIVMSG #c :m2", "NICK x2", "PART #c", "MODE #c +t", "KICK #c n3", "INVITE n3 #c",
+                    "NAMES #c", "WHO #c", "MODE #c +v n3", "AWAY :gone", "PRIVMSG n3 :p2", "JOIN #c"],
+                3: ["JOIN #c", "JOIN #c key", "PRIVMSG #c :m3", "TOPIC #c :t3", "NICK x3", "WHOIS n2", "NAMES #c", "LIST",
+                    "PRIVMSG n2 :p3", "PART #c", "JOIN #d"],
+            }
+            for c in range(1, k + 1):
+                burst[c] = [L(c, r.choice(menus[c]))]
+            order = list(range(1, k + 1))
+            r.shuffle(order)
+            setup.append("gorder " + " ".join(str(x) for x in order))
         elif kind == "joinrace":
             k = r.choice([2, 3])
             for c in range(1, k + 1):
@@ -467,13 +495,13 @@ def run_conc(tier, seed, log, kinds=None, n_override=None):
                         f.write(l + "\n")
                     f.write("begin\n")
                     for o in setup + il:
-                        if o.startswith(("mute ", "sleep ")):
+                        if o.startswith(("mute ", "sleep ", "gorder ")):
                             continue  # harness-only: which sockets are not read before the burst ends
                         if o.startswith("send "):
                             o = "line " + o[5:]
                         f.write(o.replace("connect-small ", "connect ") + "\n")
                     f.write("end\n")
-                    index.append((name, k, len([o for o in setup if not o.startswith(("mute ", "sleep "))]), il))
+                    index.append((name, k, len([o for o in setup if not o.startswith(("mute ", "sleep ", "gorder "))]), il))
         rm = runner.sh([runner.MODEL, "run", mpath], timeout=3000)
         if rm.returncode != 0:
             raise runner.BuildError("model run failed: " + rm.stderr[-800:])
@@ -756,6 +784,11 @@ def run(pid, tier, seed, log):
         out = run_timer(tier, seed, log)
     if pid == "C18":
         out = run_conc(tier, seed, log)
+        # lock-queue schedules (hook verif_hold_state): deterministic exposure of handlers that are not one
+        # lock section
+        o2 = run_conc(tier, seed + 7, log, kinds=["gated"], n_override=(24 if tier == "quick" else 400))
+        out["coverage"].update({"gated_" + k: v for k, v in o2["coverage"].items() if k not in ("rule",)})
+        out["violations"] += o2["violations"]
         info, viol = run_extractor("lock_map.py", "lock-structure-changed",
                                    "the lock/await structure of a handler (or the gate/dispatch table) differs from the one the atomic sections of Irc/Conc.lean were written from")
         out["coverage"]["lock_map"] = info
